@@ -261,18 +261,24 @@ class DotProduct(Expression):
             }
             return [var_to_elem.get(v, Constant(0.0)) for v in variables]
 
-        # Case 2: x.dot(y) -> gradient is y[i] w.r.t. x[i], x[i] w.r.t. y[i]
-        left_lookup = {left_vars[i]: right_vars[i] for i in range(len(left_vars))}
-        right_lookup = {right_vars[i]: left_vars[i] for i in range(len(right_vars))}
+        # Case 2: x.dot(y) -> gradient is y[i] w.r.t. x[i], x[i] w.r.t. y[i].
+        # A variable may occur in both operands (overlapping slices or views of
+        # one vector), so every occurrence contributes a term.
+        terms: dict[Variable, list[Expression]] = {}
+        for l_var, r_var in zip(left_vars, right_vars):
+            terms.setdefault(l_var, []).append(r_var)
+            terms.setdefault(r_var, []).append(l_var)
 
         result: list[Expression] = []
         for var in variables:
-            if var in left_lookup:
-                result.append(left_lookup[var])
-            elif var in right_lookup:
-                result.append(right_lookup[var])
-            else:
+            contributions = terms.get(var)
+            if not contributions:
                 result.append(Constant(0.0))
+                continue
+            total = contributions[0]
+            for term in contributions[1:]:
+                total = BinaryOp(total, term, "+")
+            result.append(total)
         return result
 
     def __repr__(self) -> str:
